@@ -1954,6 +1954,10 @@ static int _GD_AddAlias(DIRFILE *restrict D, const char *restrict parent,
 
     if (D->error)
       goto add_alias_error;
+
+    /* a subfield lives in its parent's fragment */
+    if (P)
+      fragment_index = P->fragment_index;
   }
 
   /* Figure out the length of the attached namespace in the supplied field
